@@ -419,7 +419,9 @@ TNext ==
   /\ LET ev == Log[l] IN
      IF ev.ev = "init"
      THEN /\ S' = Empty
-          /\ X' = [X0 EXCEPT !.scn = ev.scn, !.cap = ev.cap, !.lean = ("lean" \in DOMAIN ev /\ ev.lean)]
+          /\ X' = [X0 EXCEPT !.scn = ev.scn, !.cap = ev.cap, !.lean = ("lean" \in DOMAIN ev /\ ev.lean),
+                               \* a scenario that runs with the short driver timeout may lose any request to it
+                               !.lostn = IF "lost" \in DOMAIN ev /\ ev.lost = "silent" THEN 1 ELSE 0]
           /\ out' = Quiet
      ELSE LET R == StepOf(ev, S, X)
               mv == IF R.Y.lost \/ R.v # "" THEN "" ELSE ModelV(S, R.T, EvE(ev), EvKey(ev))
